@@ -420,27 +420,37 @@ def run(chk, repo, tier):
     us = mm.classes['Model'].methods.get('update_source')
     if us is None:
         raise AnalysisError('nonmem Model.update_source not found')
-    cfg = CFG(us.node)
     DESTRUCTIVE = {'remove_ignore', 'remove_accept', 'set_filename', 'update_name_of_tables',
                    'update_initial_individual_estimates'}
-    tests = [n for n in cfg.nodes.values() if n.kind == 'test']
+    # update_source and the function it hands the $DATA block to (if any)
+    from rules.C13 import data_update_host
+    from sa import reach as _reach
+    hosts = [us] + ([h_] if (h_ := data_update_host(repo)) is not us else [])
     found = 0
-    for n in cfg.nodes.values():
-        if n.ast is None or n.kind != 'stmt' or isinstance(n.ast, (ast.FunctionDef, ast.ClassDef)):
-            continue
-        for c in [x for x in ast.walk(n.ast) if isinstance(x, ast.Call)]:
-            nm = c.func.attr if isinstance(c.func, ast.Attribute) else dotted(c.func)
-            if nm not in DESTRUCTIVE:
-                continue
-            found += 1
-            guards = [t for t in tests if cfg.edge_dominates(t.id, 'true', n.id)
-                      and ('old_' in unparse(t.ast) or 'updated_dataset' in unparse(t.ast))]
-            chk.instance(S6, f'{nm}(...) guarded by {[g.text()[:60] for g in guards]}')
-            if not guards:
-                chk.violation(S6, mm.rel, us.qualname, unparse(c)[:100],
-                              f'{nm} runs although nothing differs from the old_* snapshot', line=c.lineno,
-                              witness='model.update_source() on an unmodified model whose $DATA has IGNORE/ACCEPT '
-                                      'filters or a file name: the regenerated code differs from the source text')
+    for us_, cfg in [(h_, CFG(h_.node)) for h_ in hosts]:
+      tests = [n for n in cfg.nodes.values() if n.kind == 'test']
+      for n in cfg.nodes.values():
+          if n.ast is None or n.kind != 'stmt' or isinstance(n.ast, (ast.FunctionDef, ast.ClassDef)):
+              continue
+          for c in [x for x in ast.walk(n.ast) if isinstance(x, ast.Call)]:
+              nm = c.func.attr if isinstance(c.func, ast.Attribute) else dotted(c.func)
+              if nm not in DESTRUCTIVE:
+                  continue
+              found += 1
+              def gtxt(t):
+                # the test with its local flags resolved (`rewritten` -> `.. or updated_dataset`)
+                try:
+                    return unparse(_reach.expand_expr(cfg, t.id, t.ast))
+                except Exception:
+                    return unparse(t.ast)
+              guards = [t for t in tests if cfg.edge_dominates(t.id, 'true', n.id)
+                        and ('old_' in gtxt(t) or 'updated_dataset' in gtxt(t))]
+              chk.instance(S6, f'{nm}(...) guarded by {[g.text()[:60] for g in guards]}')
+              if not guards:
+                  chk.violation(S6, mm.rel, us.qualname, unparse(c)[:100],
+                                f'{nm} runs although nothing differs from the old_* snapshot', line=c.lineno,
+                                witness='model.update_source() on an unmodified model whose $DATA has IGNORE/ACCEPT '
+                                        'filters or a file name: the regenerated code differs from the source text')
     if found < 4:
         raise AnalysisError(f'S6: only {found} destructive calls found in update_source')
 
